@@ -211,6 +211,9 @@ MUTATIONS = [
       old='return pattern.split("-", 1) if pattern[-1] == "-" else pattern.rsplit("-", 1)', new='return pattern.rsplit("-", 1)'),
  dict(id="h-split-range-count-by-comprehension", kind="harmless", props=["C07"], file=CLS,
       old='count = pattern.count("-")', new='count = len([ch for ch in pattern if ch == "-"])'),
+ dict(id="t-range-pattern-forgets-escaped-dash", kind="break", props=["C07"], file=CLS,
+      old='r"(?:\\\\(?:\\[|\\]|\\^|\\$|\\-|\\/|[a-z]|\\\\)|[^\\[\\]\\^\\-\\/\\\\])" + \\',
+      new='r"(?:\\\\(?:\\[|\\]|\\^|\\$|\\/|[a-z]|\\\\)|[^\\[\\]\\^\\-\\/\\\\])" + \\'),
  # ---- history (C20) ----------------------------------------------------------------------------------------------
  dict(id="s-concat-caches-on-self", kind="break", props=["C20"], file=PRE,
       old="        pattern = self._concat_conditional_group()\n        pre = pre._concat_conditional_group()",
